@@ -11,7 +11,6 @@ package main
 
 import (
 	"fmt"
-	"os"
 	"regexp"
 	"runtime/debug"
 	"strings"
@@ -84,8 +83,7 @@ func guard(f func()) (panicked bool, msg, stack string) {
 
 var frameRe = regexp.MustCompile(`hcldec\.\(?\*?(\w+)\)?\.(\w+)`)
 
-// panicClass names the hcldec spec method in which the panic was raised and
-// the construct of the case that triggers it.
+// panicClass names the hcldec spec method in which the panic was raised.
 func panicClass(d Data, fn, stack string) string {
 	where := "unknown"
 	for _, l := range strings.Split(stack, "\n") {
@@ -94,30 +92,7 @@ func panicClass(d Data, fn, stack string) string {
 			break
 		}
 	}
-	cond := ""
-	switch {
-	case strings.HasPrefix(where, "BlockAttrsSpec"):
-		d.Spec.Walk(func(x *sg.Spec) {
-			if x.K == sg.KAttrs && sg.Ty(x.Ty).HasDynamicTypes() {
-				cond = ".dynamic-element-type"
-			}
-		})
-	case strings.HasPrefix(where, "BlockListSpec"), strings.HasPrefix(where, "BlockSetSpec"):
-		// the nested spec's implied type has a dynamic part, so the blocks can
-		// decode to different types and are unified
-		d.Spec.Walk(func(x *sg.Spec) {
-			if (x.K == sg.KList || x.K == sg.KSet) && x.Kids[0].Implied().HasDynamicTypes() {
-				cond = ".nested-type-has-dynamic-part"
-			}
-		})
-	case strings.HasPrefix(where, "BlockMapSpec"):
-		d.Spec.Walk(func(x *sg.Spec) {
-			if x.K == sg.KMap && len(x.Labels) > 1 {
-				cond = ".several-labels"
-			}
-		})
-	}
-	return "c08.panic." + where + cond
+	return "c08.panic." + fn + "." + where
 }
 
 func trimStack(s string) string {
@@ -439,6 +414,13 @@ func locateVal(s *sg.Spec, bodies []*sg.Body, got, want cty.Value) *loc {
 				}
 			}
 		}
+	case sg.KSet:
+		nb := wellLabelled(bodies, s)
+		if gt.IsSetType() && wt.IsSetType() && got.LengthInt() == 1 && want.LengthInt() == 1 && len(nb) == 1 {
+			if l := locateVal(s.Kids[0], nb, got.AsValueSlice()[0], want.AsValueSlice()[0]); l != nil {
+				return l
+			}
+		}
 	case sg.KMap, sg.KBObject:
 		// descend through the label levels while the key sets agree
 		var down func(g, w cty.Value, depth int, path []string) *loc
@@ -598,6 +580,25 @@ func judge(c engine.Case) engine.Outcome {
 		if partial {
 			fn = "PartialDecode"
 		}
+		// the reference decoder first: it also names the known regions the case lies in
+		ref := refdec.Decode(d.Spec, d.Body, sg.Globals, partial)
+		// class of a failure of the given clause: inside a region of the
+		// reference trace the region names the class, otherwise the located
+		// construct does
+		class := func(clause, located string) string {
+			if len(ref.Regions) == 0 {
+				return located
+			}
+			// prefer the region of the construct the failure was located at
+			for _, r := range ref.Regions {
+				kind := strings.SplitN(r, "-", 2)[0] // blocklist, blockset, blockmap, blockattrs, default
+				if strings.Contains(strings.ToLower(located), "."+strings.TrimPrefix(kind, "block")+".") ||
+					strings.Contains(strings.ToLower(located), "."+kind+"spec.") {
+					return "c08." + r + "." + clause
+				}
+			}
+			return "c08." + ref.Regions[0] + "." + clause
+		}
 		var val cty.Value
 		var diags hcl.Diagnostics
 		if p, msg, st := guard(func() {
@@ -607,10 +608,7 @@ func judge(c engine.Case) engine.Outcome {
 				val, diags = hcldec.Decode(f.Body, spec, ctx)
 			}
 		}); p {
-			if os.Getenv("C08_DEBUG") != "" {
-				counters.Add("panic: "+d.SpecText+" :: "+msg, 1)
-			}
-			return engine.Fail(panicClass(d, fn, st), "hcldec.%s panics: %s\n%s\n%s", fn, msg, trimStack(st), desc())
+			return engine.Fail(class("panic", panicClass(d, fn, st)), "hcldec.%s panics: %s\n%s\n%s", fn, msg, trimStack(st), desc())
 		}
 		hasErr := diags.HasErrors()
 		if val == cty.NilVal {
@@ -624,38 +622,24 @@ func judge(c engine.Case) engine.Outcome {
 			if len(errs) > 0 {
 				why = errs[0].Error()
 			}
-			return engine.Fail(typeClass(l),
+			return engine.Fail(class("type", typeClass(l)),
 				"hcldec.%s returned %s\nof type   %s\nimplied:  %s\n%s (at spec node %s; errors reported: %v)\n%s",
 				fn, vfmt.V(val), val.Type().FriendlyName(), want.FriendlyName(), why, l.s.String(), hasErr, desc())
 		}
 		// (3) reference decoder
-		ref := refdec.Decode(d.Spec, d.Body, sg.Globals, partial)
 		if !hasErr && len(ref.Invalid) > 0 && !ref.UnsureValid {
-			return engine.Fail("c08.invalid-accepted."+ref.Invalid[0],
+			return engine.Fail(class("invalid-accepted", "c08.invalid-accepted."+ref.Invalid[0]),
 				"hcldec.%s reports no error for a body that does not conform to the spec (%s) and returns %s\n%s", fn, strings.Join(ref.Invalid, ", "), vfmt.V(val), desc())
 		}
 		if hasErr && len(ref.Invalid) == 0 && !ref.UnsureValid {
 			e := firstError(diags)
-			cls := "c08.valid-rejected." + summaryClass(e)
-			if e.Summary == "Missing required argument" {
-				// which construct makes a present attribute count as missing
-				d.Spec.Walk(func(x *sg.Spec) {
-					if x.K == sg.KDefault {
-						x.WalkSameBody(func(y *sg.Spec) {
-							if y.K == sg.KAttr && y.Req && !strings.HasSuffix(cls, ".attr-under-default") {
-								cls += ".attr-under-default"
-							}
-						})
-					}
-				})
-			}
-			return engine.Fail(cls,
+			return engine.Fail(class("valid-rejected", "c08.valid-rejected."+summaryClass(e)),
 				"hcldec.%s reports %q (%s) for a body that conforms to the spec\n%s", fn, e.Summary, e.Detail, desc())
 		}
 		if !hasErr && len(ref.Invalid) == 0 && !ref.Unsure {
 			if !val.RawEquals(ref.Val) {
 				at := locateVal(d.Spec, []*sg.Body{d.Body}, val, ref.Val)
-				return engine.Fail(valueClass(at),
+				return engine.Fail(class("value", valueClass(at)),
 					"hcldec.%s = %s\nreference decoder = %s\n(at spec node %s: %s vs %s)\n%s", fn, vfmt.V(val), vfmt.V(ref.Val), at.s.String(), vfmt.V(at.gotV), vfmt.V(at.wantV), desc())
 			}
 			counters.Add("values_compared", 1)
@@ -664,6 +648,9 @@ func judge(c engine.Case) engine.Outcome {
 			counters.Add("error_results_type_checked", 1)
 		}
 		if !partial {
+			for _, r := range ref.Regions {
+				counters.Add("passing_in_region_"+r, 1)
+			}
 			if hasErr {
 				sig = d.SpecText + " | E " + val.Type().FriendlyName() + " " + fmt.Sprint(val.IsKnown())
 			} else {
@@ -695,7 +682,7 @@ func main() {
 		Title:     "Decoding always yields a value of the specification's implied type",
 		Technique: "bounded exhaustive enumeration of (spec tree, body) pairs on the real hcldec; type-conformance invariant + agreement with a reference decoder over the abstract body",
 		Rule: "spec trees: quick = every tree of depth <= 2 over the rich alphabet (AttrSpec x 7 types x required, LiteralSpec, ExprSpec, BlockAttrsSpec x 3 element types x required, BlockLabelSpec 0..1, BlockSpec x required, BlockList/SetSpec x 4 Min/Max, BlockTupleSpec x 2, BlockMap/BlockObjectSpec x 1..2 labels, DefaultSpec (literal and attribute default of equal implied type), TransformExpr/TransformFuncSpec x {wrap,isnull}, RefineValueSpec x {noop,notnull}, ValidateSpec x {ok,warn,rejectnull}, ObjectSpec/TupleSpec of 1..2 children) + every tree of depth 3 over the reduced alphabet; thorough = depth <= 3 rich + depth 4 tiny (gen/specgen/enum.go); preconditions respected (consecutive label indices, no dynamic types under BlockMapSpec, equal implied types and non-block default in DefaultSpec, total transform functions, refinements that hold); " +
-			"bodies per spec (gen/specgen/bodies.go): product of {absent, 2 conforming values} per attribute and every block count 0..3 per block type with representative contents, plus every body within k edits (k=1 quick, 2 thorough) of the min/full0/full1 base bodies (remove attr, replace value by each of 8 pool values incl. null, unknown, dynamic and wrongly typed literals, extra attr, extra block type, remove block, duplicate block, add label, drop label; at every nesting level). " +
+			"bodies per spec (gen/specgen/bodies.go): product of {absent, 2 conforming values} per attribute and every block count 0..3 per block type with representative contents, plus every body within k edits (k=1 quick, 2 thorough) of the min/full0/full1/mix base bodies (mix = blocks of one type with different contents) (remove attr, replace value by each of 8 pool values incl. null, unknown, dynamic and wrongly typed literals, extra attr, extra block type, remove block, duplicate block, add label, drop label; at every nesting level). " +
 			"distinct = distinct (spec, decoded value or error type)",
 		Assumptions: []string{
 			"hclsyntax parsing and expression evaluation, go-cty conversion/unification/value constructors are trusted (refdec uses go-cty)",
